@@ -443,6 +443,43 @@ def run(ctx):
         exhaustive=False)
 
 
+# ---------------------------------------------------------------------------------------- C19
+C19_NO_CROSS = True          # the op lines carry the word size (`primew 64 …`, prefix `W32`)
+
+
+class _QuickCtx:
+    """the generators only read .rng and .tier"""
+
+    def __init__(self, ctx):
+        self.rng, self.tier, self.seed = ctx.rng, "quick", ctx.seed
+
+
+def c19_stream():
+    """op stream for property C19 (every build configuration computes the same function): corpus, validators of every
+    scheme (light selection), dates, primality / sieve / Miller–Rabin with tapes, polynomials — at most ~10k lines per
+    word size; W = 64 lines for the 64-bit builds, W = 32 lines (prefix `W32` for validators) for the 32-bit-word builds."""
+    def fn(ctx, exe, w):
+        import x_c12
+        q = _QuickCtx(ctx)
+        rng = q.rng
+        std, bels = C12_val.load_std(lambda lines: ctx.run_lines(exe, lines)[0])
+        ops = [o for o in corpus(q) if o.W == w]
+        ops += C12_val.generate(q, std, bels, x_c12.extract_lr("src/crypto/stb99.c"), x_c12.extract_lr("src/crypto/pfok.c"),
+                                x_c12.extract_consts()["stb99RiMargin"], only_w=w, light=True)
+        if w == 64:
+            d = gen_dates(q)
+            ops += d[:600] + rng.sample(d[600:], min(1400, len(d) - 600))
+        pw = gen_primew(q, w)
+        ops += [o for o in pw if not o.klass.startswith("primew:window") and not o.klass.startswith("primew:small")][:1500]
+        ops += rng.sample([o for o in pw if o.klass.startswith("primew:window") or o.klass.startswith("primew:small")], 2500)
+        sv = gen_sieve(q, w)
+        ops += rng.sample(sv, min(1500, len(sv)))
+        ops += gen_rm(q, w)
+        ops = [o for o in ops if not o.klass.startswith("gen:")]
+        return [o.line for o in ops][:10000]
+    return ("harness/c12.c", "drv_c12", fn, False)
+
+
 def replay(ctx, path):
     cfg, op, exp = "asan", None, None
     for line in open(path):
